@@ -443,10 +443,22 @@ func RunOne(o core.RunOpts) (res *core.RunResult) {
 			}()
 			for _, i := range ch.Perm("start.order", len(reqs)) {
 				ri := reqs[i]
-				if ch.Bool("start.rescan", 150) {
-					// the start-up scan of pending requests calls the request handler directly
+				switch ch.Weighted("start.how", []int{70, 10, 10, 10}) {
+				case 0:
+					go yc.VerifHandleTransaction(ri.Tx)
+				case 1:
+					// a caller of the request handler that did not go through the pending list
 					go yc.VerifHandleRequest(oracletypes.RequestID(ri.ID))
-				} else {
+				case 2:
+					// the request was already open when the daemon started: marked pending, then handled
+					st.Fault("request_pending_at_daemon_start")
+					go yc.VerifStartupPending(oracletypes.RequestID(ri.ID))
+				case 3:
+					// ... and its transaction event is also delivered (the node replays it): still exactly one report
+					st.Fault("request_pending_at_daemon_start")
+					st.Fault("transaction_event_of_a_pending_request")
+					go yc.VerifStartupPending(oracletypes.RequestID(ri.ID))
+					s.run(1)
 					go yc.VerifHandleTransaction(ri.Tx)
 				}
 				if ch.Bool("start.gap", 300) {
